@@ -142,8 +142,9 @@ func runKeyLock(t *testing.T, tr *drv.Tracer, sid int, sched []drv.Step) (hung b
 		case "Run":
 			i := drv.Num(st["i"])
 			in := get(i)
-			if !in.has || in.started {
-				t.Fatalf("schedule %d: Run of an instance that holds no service", sid)
+			if !in.has || in.started { // New did not hand out a service where the schedule's author expected one: no spec step matches
+				e.log(drv.Step{"ev": "Skip", "what": "Run", "i": i})
+				continue
 			}
 			in.started = true
 			ev["i"] = i
@@ -157,8 +158,9 @@ func runKeyLock(t *testing.T, tr *drv.Tracer, sid int, sched []drv.Step) (hung b
 		case "Stop":
 			i := drv.Num(st["i"])
 			in := get(i)
-			if !in.has || !in.started {
-				t.Fatalf("schedule %d: Stop of an instance that does not run (Close would block for ever)", sid)
+			if !in.has || !in.started { // (Close would block for ever)
+				e.log(drv.Step{"ev": "Skip", "what": "Stop", "i": i})
+				continue
 			}
 			in.svc.Close()
 			<-in.runErr
